@@ -66,7 +66,11 @@ Definition sout := (res * Z * Z)%type.
 
 Definition sstep (tr : bool) (s : sst) (o : op) : sout * sst :=
   match o with
-  | FromBorrowed d => ((RUnit, 0, 0)%Z, spush s (d, OB))
+  | FromBorrowed buf off n =>
+      match slice buf off n with
+      | Some d => ((RUnit, 0, 0)%Z, spush s (d, OB))
+      | None => ((RBad, 0, 0)%Z, s)
+      end
   | FromOwned d cap =>
       if cap <? len d then ((RBad, 0, 0)%Z, s)
       else if cap =? MAXU then ((RPanic, 0%Z, ec tr (len d)), s)
@@ -88,7 +92,7 @@ Definition sstep (tr : bool) (s : sst) (o : op) : sout * sst :=
       end
   | Cmp h h' =>
       match sget s h, sget s h' with
-      | Some (d, _), Some (d', _) => ((RCmp (lcmp d d'), 0, 0)%Z, s)
+      | Some (d, _), Some (d', _) => ((RCmp (lcmp d d') (ceqb d d') (ceqb d d'), 0, 0)%Z, s)
       | _, _ => ((RBad, 0, 0)%Z, s)
       end
   | IntoOwned h =>
@@ -146,7 +150,8 @@ Definition spec_outs (tr : bool) (p : list op) : list out := fst (srun tr sinit 
 Definition op_wf (o : op) : bool :=
   match o with
   | FromOwned d cap => (len d <=? cap) && (cap <=? ISZ)
-  | FromBorrowed d | ArcNew d => len d <=? ISZ
+  | FromBorrowed _ _ n => n <=? ISZ
+  | ArcNew d => len d <=? ISZ
   | _ => true
   end.
 Definition wf (p : list op) : bool := forallb op_wf p.
